@@ -195,7 +195,12 @@ impl<'i> Attributes<'i> {
         name: &str,
         map: impl Fn(&Attribute<'_>) -> R,
     ) -> Option<R> {
-        let name = Attribute::name_from_string(name.to_ascii_lowercase(), self.encoding).ok()?;
+        // NOTE: a lookup doesn't need the name to be valid for *setting* an attribute: the
+        // tokenizer accepts names that `set_attribute` rejects (e.g. `<a =b>` has an
+        // attribute named `=b`).
+        let name =
+            BytesCow::owned_from_str_without_replacements(name.to_ascii_lowercase(), self.encoding)
+                .ok()?;
         let check = move |attr: &Attribute<'_>| {
             if eq_case_insensitive(&attr.name.as_ref(), &name.as_ref()) {
                 Some(map(attr))
